@@ -153,6 +153,7 @@ func C08(p *load.Prog, r *oblig.Run) {
 	c07PairSearch(p, r)
 	r.Rule("R07.e", "list equality answers true only for lists of equal length (the relation children are matched with is symmetric in the child counts)", 1)
 	c07ListEquality(p, r)
+	bitMarks(p, r, "R07.k")
 	// R08.b
 	cn := roots[0]
 	a := e4.New(p, g, cn)
@@ -207,6 +208,7 @@ func C09(p *load.Prog, r *oblig.Run) {
 	c07PairSearch(p, r)
 	r.Rule("R07.e", "list equality answers true only for lists of equal length (the relation children are matched with is symmetric in the child counts)", 1)
 	c07ListEquality(p, r)
+	bitMarks(p, r, "R07.k")
 	c07CopyWalksAll(p, r)
 	c07CopyThroughFilter(p, r)
 	c07Bookkeeping(p, r)
@@ -353,6 +355,7 @@ func C07(p *load.Prog, r *oblig.Run) {
 	r.Rule("R07.e", "DeepEqual answers true only after the numbers of children of both nodes were compared (or both found zero)", 1)
 	c07EqualShortcuts(p, r)
 	c07ListEquality(p, r)
+	bitMarks(p, r, "R07.k")
 	c07PairSearch(p, r)
 	// a copy is made through the kind registry (newNode): it serialises identically only if every kind's constructor
 	// passes value and pointer through unchanged (C01's registry rule)
